@@ -8,7 +8,7 @@ from impl import ImplRunner, state_wire, result_wire, mat_wire
 import scen
 
 
-def explore(sd, scenario, modes=(0, 1, 0), max_states=300):
+def explore(sd, scenario, modes=(0, 1, 0), max_states=300, rng=None, paths=3, depth=6, sample=120):
     runner = ImplRunner(scenario, sd, list(modes))
     env, shim, lay = runner.env, runner.shim, runner.lay
     flat = run_driver([[1, scen.sd_wire(sd)]])[0][0]
@@ -16,6 +16,7 @@ def explore(sd, scenario, modes=(0, 1, 0), max_states=300):
     seen = {start.tensor.tobytes(): start}
     queue = [start]
     recs, obs = [], []
+    trans = {}
     complete = True
     while queue:
         st = queue.pop()
@@ -34,10 +35,52 @@ def explore(sd, scenario, modes=(0, 1, 0), max_states=300):
                              shim.calls if shim.calls <= 1 else -7, fx(rew), int(bool(done))])
                 obs.append(mat_wire(o.numpy()))
                 key = ns.tensor.tobytes()
+                trans.setdefault(st.tensor.tobytes(), []).append((ai, k, key))
                 if key not in seen:
                     if len(seen) >= max_states:
                         complete = False
                         continue
                     seen[key] = ns
                     queue.append(ns)
-    return dict(records=recs, obs=obs, states=len(seen), transitions=len(recs), complete=complete, modes=list(modes))
+    n_graph = len(recs)
+    own_hist = []
+    # ---- the same transitions again while the environment's OWN episode is somewhere else: along a few real
+    # episodes (env.step, resets in between) a sample of the graph's (state, action, draw) triples is given to
+    # generative_step again; the records are judged and compared like all others, so anything that depends on
+    # the environment's own history (bookkeeping on the Network, the Action objects, caches) shows up
+    if rng is not None and trans:
+        states = list(seen.values())
+        for _path in range(paths):
+            env.reset()
+            own = []
+            for _depth in range(depth):
+                key = env.current_state.tensor.tobytes()
+                moves = [(ai, k) for ai, k, nk in trans.get(key, []) if nk != key]
+                if not moves:
+                    break
+                ai, k = rng.choice(moves)
+                shim.k, shim.calls = k, 0
+                shim.install()
+                try:
+                    env.step(ai)
+                finally:
+                    shim.remove()
+                own = own + [[ai, k]]
+                for _ in range(sample):
+                    st = rng.choice(states)
+                    ai2 = rng.randrange(len(flat))
+                    wa = flat[ai2]
+                    k2 = 0 if (wa[3] >= TWO53 or wa[3] <= 0 or rng.random() < 0.7) else TWO53 - 1
+                    shim.k, shim.calls = k2, 0
+                    shim.install()
+                    try:
+                        ns, o, rew, done, info = env.generative_step(st, ai2)
+                    finally:
+                        shim.remove()
+                    recs.append([state_wire(st.tensor, lay), wa, k2, state_wire(ns.tensor, lay),
+                                 result_wire(info, runner.names, runner.addrs),
+                                 shim.calls if shim.calls <= 1 else -7, fx(rew), int(bool(done))])
+                    obs.append(mat_wire(o.numpy()))
+                    own_hist.append(own)
+    return dict(own_history=[None] * n_graph + own_hist, records=recs, obs=obs, states=len(seen), transitions=n_graph, revisited=len(recs) - n_graph,
+                complete=complete, modes=list(modes))
